@@ -225,7 +225,7 @@ def _one_model(ctx, variant, rng, mg, quick, exact_rows):
             inv_at_min = Vref
         pdict = dict(zip(names, [float(v) for v in xp]))
         methods = [("default", dict()), ("hesse", dict(method="hesse")), ("3-point", dict(method="3-point")), ("no_force_pos", dict(force_pos=False)),
-                   ("correct_params", dict(correct_params=[names[0]]))]
+                   ("correct_params", dict(method="correct", correct_params=[names[0]]))]
         for mname, kw in methods:
             if mname == "3-point" and pname != "minimum":
                 pass  # 3-point differentiates the gradient at the given point as well
@@ -331,7 +331,7 @@ def _one_model(ctx, variant, rng, mg, quick, exact_rows):
 
     n_ff_skip = 0
     F0 = fracs(x0)
-    J, dis = _fd_grad_vec(fracs, x0, 0.2 * sref)
+    J, dis = _fd_grad_vec(fracs, x0, 0.05 * sref)
     results["fit_fraction_fd_disagreement"] = float("%.3g" % (dis.max() / np.abs(J).max()))
     fracs(x0)
     covs = [("inv_he", inv_at_min)] + [("random%d" % k, _cov(rng, n, float(np.mean(sref)))) for k in range(2 if quick else 6)]
